@@ -40,7 +40,7 @@ ASSUMPTIONS = ['only one type is skewed at a time; historical cross-type combina
                'of the rename-table clauses only "chains end" and "the loader resolves an old name to what the end of its chain names" are checked (once per interpreter); importability of targets in other packages and "no capture of live class names" are static and not decided here',
                'sampling, not proof']
 PROBES = ['data_v1', 'data_v2', 'data_v3', 'data_v4', 'dc_v1', 'dc_v2', 'dc_v3', 'skew_with_groups', 'skew_with_links', 'skew_with_joins',
-          'registry_shape_checked', 'rename_table_checked']
+          'registry_shape_checked', 'rename_table_checked', 'registry_version_accepted', 'registry_version_refused']
 
 WEIGHTS = dict(c02.WEIGHTS)
 WEIGHTS.pop('new_file', None)
@@ -81,7 +81,7 @@ def generate(rng, cfg, guards):
         elif k == 'add_derived':
             ops.append([k, r8(), r8(), rng.pick(sorted(LF.ONE))])
         elif k == 'add_link':
-            ops.append([k, rng.wpick(linkkinds), r8(), r8(), r8(), r8(), rng.pick(sorted(LF.ONE)), r8(), rng.pick(sorted(LF.TWO))])
+            ops.append([k, rng.wpick(linkkinds), r8(), r8(), r8(), r8(), rng.pick(sorted(LF.ONE)), r8(), rng.pick(sorted(LF.TWO)), rng.chance(0.4)])
         elif k == 'join':
             ops.append([k, r8(), r8(), r8(), r8()])
         elif k == 'new_group':
@@ -98,7 +98,10 @@ def generate(rng, cfg, guards):
         else:
             ops.append(['restart', True, True, None, 0, False])
     ops.append(['restart', True, True, None, 0, False])
-    return {'knobs': {'guards': list(guards), 'prop': PROP, 'skew': [typ, ver]}, 'ops': ops}
+    # a registration history for the versioned registry itself: (key, version) attempts in any order, also repeated
+    # and out of order (a plug-in that forgets the version keyword registers version 1 again)
+    reg = [[rng.randrange(2), rng.pick([1, 1, 2, 2, 3, 3, 4, 5, 'x'])] for _ in range(rng.randrange(4, 12))]
+    return {'knobs': {'guards': list(guards), 'prop': PROP, 'skew': [typ, ver], 'reg': reg}, 'ops': ops}
 
 
 simplify = c02.simplify
@@ -124,6 +127,40 @@ def check_registry(res):
                 raise Violation('C12/saved-version-without-loader', '%s version %d' % (typ, v))
     res.probe('registry_shape_checked')
     check_rename_table(res)
+
+
+def check_versioned_registry(reg, res):
+    """The registry class behind the saver / loader tables against a reference model, over a generated registration history:
+    an attempt is accepted exactly when it is the next version of its key; nothing accepted is ever replaced."""
+    from glue.core.state import VersionedDict
+    d = VersionedDict()
+    model = {}
+    for n, (key, version) in enumerate(reg):
+        value = 'value-%d' % n
+        try:
+            d['k%d' % key, version] = value
+            accepted = True
+        except (KeyError, ValueError):
+            accepted = False
+        have = model.setdefault(key, [])
+        should = isinstance(version, int) and version == len(have) + 1
+        res.nchecks += 1
+        if accepted != should:
+            raise Violation('C12/registry-%s' % ('accepts-out-of-order-or-repeated-version' if accepted else 'refuses-next-version'),
+                            'key k%d holds versions 1..%d, registering version %r was %s' % (key, len(have), version, 'accepted' if accepted else 'refused'))
+        if accepted:
+            have.append(value)
+            res.probe('registry_version_accepted')
+        else:
+            res.probe('registry_version_refused')
+        for k, vals in model.items():
+            if not vals:
+                continue
+            for v, val in enumerate(vals, 1):
+                if d.get_version('k%d' % k, v) != val:
+                    raise Violation('C12/registered-version-overwritten', 'key k%d version %d now holds %r, registered %r' % (k, v, d.get_version('k%d' % k, v), val))
+            if d['k%d' % k] != (vals[-1], len(vals)):
+                raise Violation('C12/registry-default-not-newest/model', 'key k%d' % k)
 
 
 _TABLE_OK = []
@@ -193,6 +230,7 @@ def execute(case, res):
         with warnings.catch_warnings():
             warnings.simplefilter('ignore')
             check_registry(res)
+            check_versioned_registry(case['knobs'].get('reg', []), res)
             # reuse C02's executor with a version-skewed restart
             old = c02.restart
             c02.restart = lambda w, r, f, op: restart(w, r, f, op, case['knobs']['skew'])
